@@ -10,6 +10,9 @@ V-ORDER    every ordered output of a statistic (asdict/aslist/asnumpy/aspandas, 
 V-FWD      every public method of the view classes reads each parameter and forwards keywords under their own name.
 V-UNION    the total degree of a node / total size of an edge of a directed network is the size of the UNION of its two
            sides, never the sum of their sizes (a node in both tail and head of one edge would count twice).
+V-SIDE     the directed statistics and accessors named after one side read that side: in_degree the node's "in"
+           memberships, out_degree "out", tail* the edge's "in" (tail) set, head* its "out" (head) set; occurrences where
+           both sides of one entry are combined (total size / degree filters) are neutral.
 V-FILTER   in filterby / filterby_attr each mode maps to its comparison operator between the stat value and the
            argument, the candidates are iterated in view order and the result is restricted through from_view.
 """
@@ -33,7 +36,7 @@ TABLE_OF_VIEW_ATTR = {"_id_dict", "_id_attr", "_bi_id_dict", "_bi_id_attr"}
 def run(ctx):
     repo = ctx.repo
     res = Result(PROP)
-    res.rules = ["V-LIVE", "V-REBIND", "V-NOCACHE", "V-ORDER", "V-FILTER", "V-FWD", "V-UNION", "V-ZERO"]
+    res.rules = ["V-LIVE", "V-REBIND", "V-NOCACHE", "V-ORDER", "V-FILTER", "V-FWD", "V-UNION", "V-ZERO", "V-SIDE"]
     res.explanation = (
         "Structural rules over the view and stat classes and a package-wide who-may-rebind scan (effect analysis): views "
         "alias the live tables, nothing is cached, ordered outputs are tagged with the provenance of their iteration "
@@ -71,6 +74,13 @@ def run(ctx):
                  "def _deg(net, n):\n    return len(net._node[n]['in']) + len(net._node[n]['out'])\n",
                  lambda nd: f"`{unparse(nd, 70)}` adds the sizes of the two sides of one directed entry; a node that is both in the tail and in the head of the same edge (or an edge that is both among the in- and out-memberships) is counted twice, so the statistic disagrees with the degree / size defined on the union",
                  "sums of the sizes of the in and out sides of one entry")
+    check_sides(repo, res)
+    from .common import check_dead_params
+
+    vs_fns = [m for cn in ("IDView", "NodeView", "EdgeView", "DiNodeView", "DiEdgeView") for m in views.classes[cn].methods.values()]
+    vs_fns += [f for mn, mi in repo.modules.items() if mn.startswith("xgi.stats") for f in list(mi.functions.values()) + [m for c in mi.classes.values() for m in c.methods.values()]]
+    nd = check_dead_params(res, PROP, "V-FWD", vs_fns, "the value of the statistic / the IDs returned")
+    res.floor("view methods and stat functions checked for dead parameters", nd, 55)
     from .c12_matrices import falsy_default_sites
 
     all_stat_fns = [f for mn, mi in repo.modules.items() if mn.startswith("xgi.stats") for f in list(mi.functions.values()) + [m for c in mi.classes.values() for m in c.methods.values()]]
@@ -697,3 +707,52 @@ def comp_matches(comp, mode, opcls, selfn, valp):
         if is_val(l) and is_value(r):
             return (FLIP.get(o) is opcls), f"compares with `{unparse(c, 50)}` instead of the {mode!r} operator"
     return False, "has no comparison between the stat value of the ID and the argument"
+
+
+SIDE_OF_NAME = (("in_degree", "in"), ("out_degree", "out"), ("tail", "in"), ("head", "out"))
+
+
+def check_sides(repo, res):
+    n = 0
+    fns = []
+    for mn in ("xgi.stats.dinodestats", "xgi.stats.diedgestats"):
+        mi = repo.modules.get(mn)
+        if mi is None:
+            raise AnalysisError(f"{mn} not found (anchor vanished)")
+        fns += list(mi.functions.values())
+    dv = repo.modules["xgi.core.views"].classes.get("DiEdgeView")
+    if dv is None:
+        raise AnalysisError("xgi.core.views.DiEdgeView not found (anchor vanished)")
+    fns += [m for m in dv.methods.values()]
+    for fn in fns:
+        want = next((side for word, side in SIDE_OF_NAME if fn.name == word or fn.name.startswith(word + "_") or fn.name == word + "s"), None)
+        if want is None:
+            continue
+        par = {}
+        for p in ast.walk(fn.node):
+            for ch in ast.iter_child_nodes(p):
+                par[ch] = p
+        sides = [x for x in ast.walk(fn.node) if isinstance(x, ast.Subscript) and isinstance(x.slice, ast.Constant) and x.slice.value in ("in", "out") and any(isinstance(y, ast.Attribute) and y.attr in ("_node", "_edge", "_id_dict", "_bi_id_dict") for y in ast.walk(x.value))]
+        if not sides:
+            # a thin alias (sources -> tail): nothing to read here
+            continue
+        n += 1
+        bad = []
+        for x in sides:
+            # neutral: both sides of the same entry combined in one expression (X["in"].union(X["out"]))
+            p = x
+            neutral = False
+            for _ in range(4):
+                p = par.get(p)
+                if p is None:
+                    break
+                others = [y for y in ast.walk(p) if isinstance(y, ast.Subscript) and y is not x and isinstance(y.slice, ast.Constant) and y.slice.value in ("in", "out") and y.slice.value != x.slice.value and ast.dump(y.value) == ast.dump(x.value)]
+                if others and isinstance(p, ast.Call):
+                    neutral = True
+                    break
+            if not neutral and x.slice.value != want:
+                bad.append(x)
+        res.inst("V-SIDE", f"{fn.fq}: reads the {want!r} side ({len(sides)} side accesses)", not bad)
+        for x in bad[:1]:
+            res.add(mk_finding(PROP, "V-SIDE", fn, x, f"{fn.qualname} is the {'in' if want == 'in' and 'degree' in fn.name else want}-side statistic but reads `{unparse(x, 50)}`; it reports the other side of the directed incidence (in/out degree, tail/head)", role=fn.name))
+    res.floor("one-sided directed statistics / accessors", n, 3)
